@@ -383,7 +383,12 @@ def insert_region(text, rng):
     prev = 0
     for g, kd in zip(chosen, kinds):
         pieces.append(("".join(t for _, t in toks[prev:g + 1]), None))
-        pieces.append((rng.choice(OFF_FORMS if kd == "off" else ON_FORMS), kd))
+        form = rng.choice(OFF_FORMS if kd == "off" else ON_FORMS)
+        if not form.startswith("//") and not form.endswith(("\n", "\r")) and rng.random() < 0.6:
+            # blanks between a block-form toggle and the next token of the same line: after an `on` comment they are
+            # ordinary (formatted) whitespace again, whatever their amount
+            form += rng.choice([" ", "   ", "\t", "  \t ", "     "])
+        pieces.append((form, kd))
         prev = g + 1
     pieces.append(("".join(t for _, t in toks[prev:]), None))
     new = "".join(p for p, _ in pieces)
@@ -412,7 +417,11 @@ def insert_region(text, rng):
     return new, regions
 
 
-ASM_BODIES = ["  mov eax, 1\n   @@loop:  dec   ecx\n  jnz @@loop\n", "mov   A,B\n mov C , D\n  mov   C ,   D\n", "  db $0F,$31 ; rdtsc\n  PUSH  EBX\n"]
+ASM_BODIES = ["  mov eax, 1\n   @@loop:  dec   ecx\n  jnz @@loop\n", "mov   A,B\n mov C , D\n  mov   C ,   D\n", "  db $0F,$31 ; rdtsc\n  PUSH  EBX\n",
+              # conditional directives written on an instruction's line belong to that line (F33): at its end, in its middle, around it
+              "  PUSH  {$IFDEF CPUX64}   rbx   {$ENDIF}\n  ret\n", "  MOV {$IFDEF CPUX64} rax {$ELSE} eax {$ENDIF}, 1\n",
+              "  mov eax, {$IFDEF A} 1 {$ELSE} 2 {$ENDIF}\n  {$IFDEF X} mov ebx, 2 {$ENDIF}\n  ret\n",
+              "  {$IFNDEF PUREPASCAL}  xor eax,  eax {$ELSE} nop {$ENDIF}\n", "  push {$IF Defined(A)} eax {$ELSEIF Defined(B)} ebx {$ELSE} ecx {$IFEND}; pop  edx\n"]
 
 
 def run_c07(ctx):
@@ -549,11 +558,16 @@ def run_c08(ctx):
     cases += boundary_width_cases(ctx, bt, "twice-decided", input_lines=True)
     for kind, text in gen.codepoint_sweep(rng, frac=ctx.n(0.5, 1.0), wellformed_only=True):
         cases.append(ctx.case(kind, text, gen.DEFAULT_CFG, meta={"wellformed": True}))
+    # disabled regions inside statements: the tokens around them are formatted as usual (spacing, canonical counters)
+    for text, kind, wrap in wellformed_texts(ctx, ctx.n(60, 1500))[:: ctx.n(3, 1)]:
+        r = insert_region(text, rng)
+        if r is not None:
+            cases.append(ctx.case("region", r[0], gen.random_cfg(rng, wrap=rng.choice([wrap, 120, 1000000])), meta={"invalid": True}))
     cases += witness_cases(ctx, "C08", wellformed=True)
     wf_cases = [c for c in cases if c.meta.get("wellformed")]
     other = [c for c in cases if not c.meta.get("wellformed")]
     ctx.run_stream(wf_cases, units=["canon", "lineend", "invariants", "recon", "eofnl", "settings", "wrapapply"], oracle=oracle)
-    ctx.run_stream(other, units=["canon", "lineend", "recon", "eofnl", "settings", "wrapapply"], oracle=oracle)
+    ctx.run_stream(other, units=["canon", "lineend", "recon", "eofnl", "settings", "wrapapply", "spacing"], oracle=oracle)
     ctx.hypotheses["H-W1 canon_fmt (final per-token data: line start => no spaces; continuation => <= 1 space, no indentation; <= 1 blank line)"] = "unit canon on every trace"
     ctx.hypotheses["no content ends in a blank before a line break"] = "unit lineend on every trace (classes F3/F7 matched against known findings)"
 
@@ -1795,8 +1809,13 @@ ENCODINGS = [  # (name for -C encoding, python codec, bom bytes, model enc name 
     ("windows-1252", "utf-16-le", b"\xff\xfe", None), ("utf-16le", "utf-16-le", b"", "utf16le"), ("utf-16be", "utf-16-be", b"", "utf16be"),
     ("windows-1252", "cp1252", b"", None), ("shift_jis", "shift_jis", b"", None), ("gbk", "gbk", b"", None),
     ("big5", "big5", b"", None), ("euc-kr", "euc_kr", b"", None), ("windows-1251", "cp1251", b"", None),
+    # stateful and further legacy encodings (ISO-2022-JP text consists of 7-bit bytes only)
+    ("iso-2022-jp", "iso2022_jp", b"", None), ("euc-jp", "euc_jp", b"", None), ("koi8-r", "koi8_r", b"", None),
+    ("windows-1250", "cp1250", b"", None), ("iso-8859-2", "iso8859_2", b"", None), ("gb18030", "gb18030", b"", None), ("ibm866", "cp866", b"", None),
 ]
-ENC_SAMPLES = {"cp1252": "é ü ß", "shift_jis": "カタカナ 漢字", "gbk": "汉字 测试", "big5": "漢字 測試", "euc_kr": "한글 시험", "cp1251": "Привет мир"}
+ENC_SAMPLES = {"cp1252": "é ü ß", "shift_jis": "カタカナ 漢字", "gbk": "汉字 测试", "big5": "漢字 測試", "euc_kr": "한글 시험", "cp1251": "Привет мир",
+               "iso2022_jp": "漢字 テスト", "euc_jp": "漢字 テスト", "koi8_r": "Привет мир", "cp1250": "Zażółć gęślą jaźń", "iso8859_2": "Zażółć gęślą",
+               "gb18030": "汉字 测试 €", "cp866": "Привет мир"}
 
 
 def model_fileio(rows):
@@ -1837,6 +1856,10 @@ def run_file_layer(ctx, prop):
         encs = ENCODINGS if (prop == "C17" or k % 4 == 0) else ENCODINGS[:4]
         for (ename, codec, bom, mname) in (encs if prop == "C17" else rng.sample(encs, min(len(encs), 3))):
             t = text
+            if codec in ("iso2022_jp", "euc_jp", "koi8_r", "cp1250", "iso8859_2", "gb18030", "cp866"):
+                # Python's codecs accept more than the WHATWG encoders of encoding_rs (e.g. JIS X 0212 in EUC-JP): only
+                # ASCII plus the sample, which both can represent
+                t = text.encode("ascii", "ignore").decode()
             if codec in ENC_SAMPLES and rng.random() < 0.7:
                 t = t + "\n// " + ENC_SAMPLES[codec] + "\nconst S = '" + ENC_SAMPLES[codec] + "';\n"
             try:
@@ -1856,9 +1879,12 @@ def run_file_layer(ctx, prop):
     BAD = {"utf-8": [b"begin \xff\xfe\xfd end.", b"\xc3(", b"\xed\xa0\x80", b"\xf4\x90\x80\x80", b"\xc0\xaf", b"abc\xe3\x80"],
            "utf-16-le": [b"a\x00b", b"\x00\xd8a\x00", b"a\x00\x00\xdc", b"\x00\xd8"],
            "utf-16-be": [b"\x00a\x00", b"\xd8\x00\x00a", b"\x00a\xdc\x00"],
-           "shift_jis": [b"\x81", b"abc\x81", b"\x81\x20"]}
+           "shift_jis": [b"\x81", b"abc\x81", b"\x81\x20"],
+           "iso2022_jp": [b"a; \x1b$B\x21", b"\x1b(Z abc;", b"x := 1; // \x1b$B4A\x1b(", b"\x0e abc"],
+           "euc_jp": [b"\xb4", b"abc\x8f\xa1"]}
     for ename, codec, bom, mname in [("utf-8", "utf-8", b"", "utf8"), ("utf-8", "utf-8", b"\xef\xbb\xbf", "utf8"), ("utf-8", "utf-16-le", b"\xff\xfe", "utf8"),
-                                     ("utf-16be", "utf-16-be", b"", "utf16be"), ("utf-8", "utf-16-be", b"\xfe\xff", "utf8"), ("shift_jis", "shift_jis", b"", None)]:
+                                     ("utf-16be", "utf-16-be", b"", "utf16be"), ("utf-8", "utf-16-be", b"\xfe\xff", "utf8"), ("shift_jis", "shift_jis", b"", None),
+                                     ("iso-2022-jp", "iso2022_jp", b"", None), ("euc-jp", "euc_jp", b"", None)]:
         for bad in BAD[codec]:
             jobs.append({"i": k, "text": None, "bytes": bom + bad, "ename": ename, "codec": codec, "bom": bom, "mname": mname, "malformed": True})
             k += 1
@@ -1973,8 +1999,27 @@ def run_file_layer(ctx, prop):
     return wd, ecfg
 
 
+def many_failures(ctx, wd, ecfg):
+    import shutil
+    # the exit status is non-zero for EVERY number of failing files (a status is one byte: 256 and 512 failures included)
+    for nfail in ctx.n([1, 255, 256, 257], [1, 2, 255, 256, 257, 511, 512, 513, 768]):
+        fd = os.path.join(wd, "manyfail%d" % nfail)
+        os.makedirs(fd)
+        for i in range(nfail):
+            open(os.path.join(fd, "u%04d.pas" % i), "wb").write(b"begin  end." if i % 2 else b"begin \xff end.")
+        open(os.path.join(fd, "ok.pas"), "wb").write(b"begin\nend.\n")
+        rc, so, se = cli.run(["--config-file", ecfg, "--mode", "check", fd], fd, env={"RAYON_NUM_THREADS": "4"})
+        ctx.count("many_failure_runs")
+        case = ctx.case("many-failures", "check mode over %d failing files" % nfail, gen.DEFAULT_CFG)
+        ctx.note_case(case)
+        if rc == 0:
+            ctx.fail("batch_exit_zero_with_failures", case, "check mode over a directory with %d unformatted or undecodable files exited 0" % nfail)
+        shutil.rmtree(fd, ignore_errors=True)
+
+
 def run_c16(ctx):
     wd, ecfg = run_file_layer(ctx, "C16")
+    many_failures(ctx, wd, ecfg)
     # finding F8: non-canonical legacy bytes in already formatted text (Shift_JIS 87 90 = U+2252, canonically 81 E0)
     body = "// ".encode("ascii") + bytes.fromhex("8790") + b"\nbegin\nend.\n"
     f8 = os.path.join(wd, "f8.pas")
@@ -2085,7 +2130,20 @@ def run_c18(ctx):
                 data = bom + t.encode(codec)
             except UnicodeEncodeError:
                 data = t.encode("utf-8")
-            specs.append(("f%03d.pas" % i, data))
+            # names that differ only in letter case, in the extension's case, or that contain blanks and non-ASCII letters,
+            # and sub-directories: every one of them is a file of its own
+            name = "f%03d.pas" % i
+            if i % 7 == 1 and i + 1 < len(texts):
+                name = "Unit%d.pas" % i
+            elif i % 7 == 2:
+                name = "unit%d.pas" % (i - 1)
+            elif i % 7 == 3:
+                name = "UNIT%d.PAS" % (i - 2)
+            elif i % 7 == 4:
+                name = "sub dir/Ünit %d.pas" % i
+            elif i % 7 == 5:
+                name = "sub dir/ünit %d.pas" % (i - 1)
+            specs.append((name, data))
         # failing files: undecodable content, a directory with a .pas name (open for write fails), a missing path
         specs.append(("bad_utf8.pas", b"begin \xff\xfe end."))
         solo = {}
@@ -2093,6 +2151,7 @@ def run_c18(ctx):
         os.makedirs(sd)
         for name, data in specs:
             p = os.path.join(sd, name)
+            os.makedirs(os.path.dirname(p), exist_ok=True)
             open(p, "wb").write(data)
             rc, so, se = cli.run(["--config-file", ecfg, p], sd)
             solo[name] = (open(p, "rb").read(), rc)
@@ -2101,6 +2160,7 @@ def run_c18(ctx):
                 bd = os.path.join(wd, "batch%d_%d_%d" % (di, threads, rep))
                 os.makedirs(os.path.join(bd, "isdir.pas"))
                 for name, data in specs:
+                    os.makedirs(os.path.dirname(os.path.join(bd, name)), exist_ok=True)
                     open(os.path.join(bd, name), "wb").write(data)
                 args = ["--config-file", ecfg, bd, os.path.join(bd, "missing.pas")]
                 rc, so, se = cli.run(args, bd, env={"RAYON_NUM_THREADS": str(threads)})
@@ -2117,6 +2177,7 @@ def run_c18(ctx):
         gd = os.path.join(wd, "good%d" % di)
         os.makedirs(gd)
         for name, data in specs[:-1]:
+            os.makedirs(os.path.dirname(os.path.join(gd, name)), exist_ok=True)
             open(os.path.join(gd, name), "wb").write(data)
         rc, so, se = cli.run(["--config-file", ecfg, gd], gd, env={"RAYON_NUM_THREADS": "8"})
         if rc != 0:
@@ -2125,6 +2186,7 @@ def run_c18(ctx):
         shutil.rmtree(sd, ignore_errors=True)
         if len(ctx.samples) < 4:
             ctx.samples.append({"files": len(specs), "largest_bytes": max(len(d) for _, d in specs), "threads": "1,3,16"})
+    many_failures(ctx, wd, ecfg)
     ctx.hypotheses["real rayon interleavings"] = "sampled (thread counts x repetitions), not enumerated; the model theorem covers every interleaving of the modelled steps"
     ctx.hypotheses["process-wide state = {AtomicPtr CPU dispatch, AtomicBool exit flag}"] = "generated inventory proved equal to the modelled set (inventory_shared_state)"
 
